@@ -248,6 +248,9 @@ def compare(ctx, cases):
             bad.append((c, a, b))
         elif c.get('tile') and isinstance(a, list) and ''.join(a) != c['seq']:
             bad.append((c, 'pieces concatenate to ' + ''.join(a), 'tiling theorem: ' + c['seq']))
+        elif c['kind'] == 'cleave' and isinstance(a, list) and any(q not in c['seq'] for q in a):
+            bad.append((c, 'product not a substring: %s' % [q for q in a if q not in c['seq']][:3],
+                        'theorem digest_products_are_substrings_within_limits'))
     return impl, model, bad
 
 def run(ctx):
